@@ -96,8 +96,17 @@ def print_params(params, va):
     return out
 
 
+CV_STYLE = 0     # 0: cv before the name; 1: after; 2: const before, volatile after (set by generators that want the variety)
+
+
 def base_tokens(b):
-    return (['const'] if b[2] else []) + (['volatile'] if b[3] else []) + b[1].split()
+    c, v = (['const'] if b[2] else []), (['volatile'] if b[3] else [])
+    nm = b[1].split()
+    if b[1].startswith('decltype') or CV_STYLE == 0:
+        return c + v + nm
+    if CV_STYLE == 1:
+        return nm + v + c
+    return c + nm + v
 
 
 def print_decl(t, name):
